@@ -79,7 +79,7 @@ def _check_one(i):
     quick = _CFG.get('z3_quick', int(os.environ.get('PYVC_Z3_QUICK_MS', '2000')))
     tz = 0.0
     r, s = z3.unknown, None
-    for seed, tmo in ((0, quick), (2, 2 * quick)):
+    for seed, tmo in ((0, quick), (2, 2 * quick), (7, 2 * quick)):
         r, t_, s = _z3_try(ob, tmo, seed=seed)
         tz += t_
         if r != z3.unknown:
